@@ -283,8 +283,37 @@ def d6(ctx, F):
     c02.d2(ctx, F)
 
 
+def d7_decodes_this_reply(ctx, F):
+    """the value returned for a request is decoded from the bytes of *its* reply: the buffer handed to the payload decoder is built in
+    the decoding function from the bytes it was given (a buffer kept in the handle between requests still holds earlier replies, and
+    none of the stock decoders consumes what it reads)"""
+    n = 0
+    for rx, who in ((r"^selium::streams::request_reply::requestor::Requestor::<E, D, ReqItem, ResItem>::(decode_response|request::\{closure#0\})$", "Requestor"),
+                    (r"^selium::streams::request_reply::replier::Replier::<E, D, F, ReqItem, ResItem>::(decode_message|handle_request::\{closure#0\})$", "Replier")):
+        for b0 in F.find_bodies(rx):
+            b = F.inlined(b0, only=("selium::streams::",))          # (shared payload helpers may live next to the stream modules)
+            for c in b.calls():
+                if strip_generics(c.callee) != "selium_std::traits::codec::MessageDecoder::decode" or len(c.args) < 2:
+                    continue
+                n += 1
+                ctx.touch(b0)
+                r = flow.root(b, c.args[1], through_calls=())
+                fresh = False
+                if r[0] == "rv" and r[1]["k"] == "ref":
+                    pl = r[1]["pl"]
+                    base_ty = b.local_ty(pl["l"])
+                    # a local buffer of this function (not a place inside *self / a captured handle)
+                    fresh = not [e for e in pl["p"] if e != "*"] and "*" not in pl["p"] and not base_ty.startswith("&") and pl["l"] > b.nargs
+                elif r[0] == "call":
+                    fresh = True
+                ctx.check(fresh, "C04.D3.decodes-this-reply", "decode-buffer-kept:%s:%s" % (who, b0.path.split("::{")[0].rsplit("::", 1)[-1]),
+                          "%s decodes a payload out of a buffer built for that payload (not one kept in the handle across messages)" % who, c.span)
+    ctx.floor("C04.D3.decodes-this-reply.sites", n, 2)
+
+
 def run(ctx):
     F = ctx.facts("quick")
+    d7_decodes_this_reply(ctx, F)
     d6(ctx, F)
     d1(ctx, F)
     d2(ctx, F)
